@@ -80,7 +80,8 @@ EXHAUSTIVE_SUBSPACES = {
 
 DOT_LEXI = "dot:integer-labels-ordered-as-strings"
 DEFAULT = "<default>"
-NAMES = (DEFAULT, "a single line name", "", "name with trailing newline\n")
+NAMES = (DEFAULT, "a single line name", "", "name with trailing newline\n", 'a "quoted" name', "from file 'it''s \"x\".gml'", "ends with \\",
+         "semi;colon { brace", "a -- b -> c", "c comment", "p edge 3 2")
 
 
 # ------------------------------------------------------------------ plumbing
